@@ -6,10 +6,10 @@ namespace Ysshra
 namespace C08
 open Shim
 
-/-- the operations the statement lists as refused while locked (`close` has no state of its own
-    in the model: it is refused the same way, shimserver.go Close) -/
+/-- the operations the statement lists as refused while locked: signing, listing signers, adding,
+    removing, removing all, adding hardware certificates, locking again and closing -/
 def refusedWhenLocked : Op → Bool
-  | .signers | .sign _ | .add _ | .addHardCert _ _ | .remove _ | .removeAll | .lock _ => true
+  | .signers | .sign _ | .add _ | .addHardCert _ _ | .remove _ | .removeAll | .lock _ | .close => true
   | _ => false
 
 /-- While locked: listing returns the empty list, every other listed operation fails, and none
@@ -23,6 +23,18 @@ theorem c08_locked_ops (s : State) (now : Nat) (f : Faults) (op : Op) (hl : s.lo
   · intro h; subst h; simp [step, hl]
   · intro h
     cases op <;> simp [refusedWhenLocked] at h <;> simp [step, hl]
+
+/-- Closing: refused while locked (the connection to the underlying agent stays open, nothing
+    changes); on an unlocked shim with an open connection it succeeds and closes the connection. -/
+theorem c08_close (s : State) (now : Nat) (f : Faults) :
+    (s.locked = true → step s now f .close = (s, .err)) ∧
+    (s.locked = false → s.u.closed = false →
+      (step s now f .close).2 = .ok ∧ (step s now f .close).1.u.closed = true ∧
+      (step s now f .close).1.locked = false ∧ (step s now f .close).1.certs = s.certs ∧
+      (step s now f .close).1.u.idents = s.u.idents) := by
+  constructor
+  · intro hl; simp [step, hl]
+  · intro hl hc; simp [step, hl, hc]
 
 /-- Unlocking with a wrong passphrase fails and leaves everything as it was. -/
 theorem c08_unlock_wrong (s : State) (now : Nat) (p : Bytes) (hl : s.locked = true)
